@@ -12,7 +12,7 @@ class spec:
    "params": [{"n": name, "t": texpr, "d": null | {"v": literal}}],   # own params
    "extra": bool,                 # takes _yatiml_extra
    "sav": null | "dashes" | {"from": alias, "to": param} | "lower" | "raise"
-   "swe": null | "dashes" | "defaults" | {"from": param, "to": alias}
+   "swe": null | "dashes" | "defaults" | {"from": param, "to": alias} | {"mark": scalar}
    "rec": bool,                   # custom _yatiml_recognize
    "attrs": bool,                 # _yatiml_attributes
    "hidden": null | param,        # that parameter is stored as self._<param>
@@ -270,6 +270,9 @@ def _class_tail(L, spec, c, uid, ps, req):
             L.append('        node.unders_to_dashes_in_keys()')
         elif swe == 'defaults':
             L.append('        node.remove_attributes_with_default_values(cls)')
+        elif isinstance(swe, dict) and 'mark' in swe:
+            # a format marker / computed flag written next to the attributes
+            L.append('        node.set_attribute("marker", {})'.format(_lit(swe['mark'])))
         else:
             L.append('        node.rename_attribute({!r}, {!r})'.format(swe['from'], swe['to']))
     if c.get('rec'):
